@@ -349,6 +349,22 @@ static void g_normparts(void) {
                 judge(1, r != 0, r, SP | CE, 1);
             }
         } }
+    /* the two later steps called directly with elements that are no code points (above U+10FFFF, or negative as a wchar_t): every sequence of 1..3 over
+       {a, U+0301, V} that contains V; the tables they index end with plane 16 */
+    { static const wchar_t HV[] = { 0x110000, 0x7fffffff, (wchar_t)0x80000000, 0x1fffff };
+      for (int vi = 0; vi < 4; vi++) for (int n = 1; n <= 3; n++) { long cnt = 1; for (int i = 0; i < n; i++) cnt *= 3;
+        for (long c = 0; c < cnt; c++) for (int which = 0; which < 2; which++) {
+            wchar_t src[8]; long t = c; int has = 0; for (int i = 0; i < n; i++) { int k = t % 3; t /= 3; src[i] = k == 0 ? 'a' : k == 1 ? 0x301 : HV[vi]; if (k == 2) has = 1; }
+            if (!has) continue;
+            const wchar_t *sp = mksrc(1, src, n * sizeof(wchar_t));
+            for (size_t dmax = 2; dmax <= 6; dmax += 4) {
+                begin(which ? "wcsnorm_compose_s" : "wcsnorm_reorder_s", "element-above-U+10FFFF", "normparts hi %d %d %ld %d %zu", vi, n, c, which, dmax);
+                wchar_t *d = mkdest(dmax, 4, 0); size_t *lp = (size_t *)flush(2, sizeof(size_t)); *lp = n; int r = 0;
+                if (which) CALL(r = com(d, dmax, sp, lp, 0, BOSU)); else CALL(r = reo(d, dmax, sp, n, BOSU));
+                if (P == 1 || P == 2) { if (fault) report(fault == 2 ? "read-fault|wild" : "write-fault|wild"); continue; }
+                judge(1, r != 0, r, SP | CE, 1);
+            }
+        } } }
     /* decompose: terminated strings over {a, U+00E9, U+1E69 (three elements), U+AC01 (three jamo)} */
     static const wchar_t DA[] = { 'a', 0xe9, 0x1e69, 0xac01 }; static const int DN[] = { 1, 2, 3, 3 };
     for (int n = 0; n <= 3; n++) { long cnt = 1; for (int i = 0; i < n; i++) cnt *= 4;
